@@ -80,9 +80,15 @@ def _sparse_shapes(tier, flavour):
     return sh
 
 
+SKIP_DETERMINISM_GATE = True     # the gate of mc/main.py runs the first case inside the un-isolated parent process, where
+                                 # a crashing mutant is a harness error; the 'gate' case below does the same comparison
+                                 # inside a crash-tolerant worker
+
+
 def cases(tier, seed, flavour):
     quick = tier != 'thorough'
     seeds = [seed] if quick else [seed, seed + 1]
+    yield {'part': 'gate', 'seed': seed}
     for s in seeds:
         for tc in 'idz':
             for m in range(4):
@@ -114,6 +120,8 @@ def cases(tier, seed, flavour):
 
 def crash_key(case):
     p = case.get('part')
+    if p == 'gate':
+        return 'gate'
     if p == 'dense':
         return 'dense:%s' % case['tc']
     if p == 'sparse':
@@ -291,6 +299,8 @@ def run(case):
     from mc import cvx  # asserts the staged build
     c = Ctx()
     part = case['part']
+    if part == 'gate':
+        return _run_gate(case)
     try:
         if part == 'dense':
             _run_dense(case, c)
@@ -312,6 +322,26 @@ def run(case):
         import traceback
         c.bad('C20:%s:unexpected-exception:%s' % (part, type(e).__name__), traceback.format_exc()[-1500:])
     c.asan(part)
+    return c.result()
+
+
+def _run_gate(case):
+    """determinism gate: representative cases, run twice, must give identical observations."""
+    from mc import engine
+    seed = case['seed']
+    subs = [{'part': 'dense', 'tc': 'z', 'm': 2, 'n': 3, 'seed': seed},
+            {'part': 'sparse', 'tc': 'd', 'm': 2, 'n': 2, 'lo': 0, 'hi': 81, 'seed': seed},
+            {'part': 'file', 'tc1': 'i', 'tc2': 'z', 'seed': seed},
+            {'part': 'imp-np', 'dtype': 'float64', 'seed': seed},
+            {'part': 'imp-mv', 'fmt': 'i'},
+            {'part': 'hist', 'tc': 'z', 'first': 0, 'depth': 2}]
+    c = Ctx()
+    for sub in subs:
+        r1 = engine.jdump(run(sub))
+        r2 = engine.jdump(run(sub))
+        c.ev()
+        if r1 != r2:
+            c.bad('C20:harness:nondeterministic:' + sub['part'], 'same case, two runs, different observations', sub)
     return c.result()
 
 
